@@ -719,6 +719,12 @@ func (d *ubjDec) container(obj bool, depth int) (val.V, error) {
 	for i := 0; count < 0 || i < count; i++ {
 		var key string
 		if obj {
+			// a no-op where a key (or the end marker) is expected: a key starts
+			// with an integer marker, so 'N' here is unambiguously a no-op
+			for d.pos < len(d.b) && d.b[d.pos] == 'N' {
+				d.pos++
+				d.feats["noop-before-key"] = true
+			}
 			if count < 0 {
 				if err := d.need(1); err != nil {
 					return out, err
